@@ -67,10 +67,10 @@ def random_history(rng, length, with_obj=False):
 def real_seeds(rng):
     """two distinct real seeds for the model seeds 1, 2 (all seed values: random 32-bit, small, and the extremes)"""
     pool = [rng.randrange(0, 2**32), rng.randrange(0, 2**32), rng.randrange(0, 100), 0, 2**32 - 1, 1, 42]
-    a = rng.choice(pool[:4] if rng.random() < 0.8 else pool)
+    a = rng.choice(pool)              # seed 0 and the largest legal seed 2**32-1 each in about 1/7 of the traces
     b = a
     while b == a:
-        b = rng.choice(pool[:3] if rng.random() < 0.8 else pool)
+        b = rng.choice(pool)
     return {"1": a, "2": b}
 
 
@@ -105,7 +105,10 @@ def build_cases(chk, walks, thorough, only=None, obj_walks=None):
             tr = "e%02d/%s" % (index[ek], hid)     # short ids: TLC wraps long PrintT tuples over several lines
             cases.append({"id": "C16/" + tr, "tr": tr, "entry": ek, "fn": reg[ek]["fn"], "opt": reg[ek]["opt"], "ops": ops,
                           "seeds": real_seeds(rng), "genseed": GENSEED, "objseed": OBJSEED, "start": rng.randrange(0, 2**32),
-                          "flavour": rng.randrange(0, 4)})
+                          "flavour": rng.randrange(0, 4),
+                          # the FORM in which the seed / the generator is handed over (see lib_seeded.SEEDFORMS / GENFORMS)
+                          "seedform": rng.choice(["int"] * 8 + ["np.int64", "np.uint32"]),
+                          "genform": rng.choice(["RandomState"] * 15 + ["subclass"] * 4 + ["Generator"])})
     return cases
 
 
